@@ -7,7 +7,7 @@ import re
 import sys
 
 from common import compare_cases, standard_main, run_model, run_cli_many, parse_text_spectrum, is_panic
-from callsets import (render_vcf, vcf_to_bcf, model_records, model_samples, cli_samples_arg)
+from callsets import (render_vcf, vcf_to_bcf, model_records, model_samples, cli_samples_arg, bcf_encode_hts)
 from gen_create import random_callset, random_map, pop_sizes, names
 
 RULE = ("(a) exhaustive: <=3 samples x <=2 records over GT alphabet {0/0,0/1,1/1,./.,./1,1/2,0|1} x every map of the "
@@ -86,7 +86,7 @@ def check(rep, tier, seed):
         cols, recs = random_callset(rng, p_skip=rng.choice([0.0, 0.05, 0.2]))
         sm = None if rng.random() < 0.15 else random_map(rng, cols)
         contigs = [("chr1" if i < len(recs) // 2 or rng.random() < 0.5 else "chr1") for i in range(len(recs))]
-        vcf = render_vcf(cols, recs, extra_fields=(k % 3 == 0))
+        vcf = render_vcf(cols, recs, extra_fields=(k % 3 == 0), dot_fields=(k % 6 == 0))      # a missing GT as '.' or '.:12:30'
         argv = ["create"] + cli_samples_arg(sm)
         mc = "create 0 %s %s - %s" % (",".join(cols), model_samples(sm), model_records(recs))
         jobs.append((argv, vcf)); mcases.append(mc); metas.append(mc)
@@ -94,11 +94,15 @@ def check(rep, tier, seed):
             b = vcf_to_bcf(vcf, "c01_%d" % k, "raw")
             if b is not None:
                 bjobs.append((argv, b)); bcases.append(mc); bmetas.append("bcf:" + mc)
+        if k % 5 == 0:
+            bjobs.append((argv, bcf_encode_hts(vcf))); bcases.append(mc); bmetas.append("bcf-htslib-layout:" + mc)
         # (c) garbage in unselected columns
         if sm is not None and len(sm) < len(cols) and k % 4 == 0:
             selected = {n for n, _ in sm}
             recs2 = [[g if c in selected else rng.choice(["0", "0/1/1", "5/7", ".", "1|2|3"]) for c, g in zip(cols, r)] for r in recs]
-            jobs.append((argv, render_vcf(cols, recs2))); mcases.append(mc); metas.append("unselected-garbage:" + mc)
+            jobs.append((argv, render_vcf(cols, recs2, extra_fields=(k % 8 == 0), dot_fields=True))); mcases.append(mc); metas.append("unselected-garbage:" + mc)
+            if k % 8 == 0:
+                bjobs.append((argv, bcf_encode_hts(render_vcf(cols, recs2)))); bcases.append(mc); bmetas.append("bcf-htslib-layout:unselected-garbage:" + mc)
     exps = run_model(mcases)
     compare_cli(rep, "create-cli-vcf", jobs, exps, metas)
     compare_cli(rep, "create-cli-bcf", bjobs, run_model(bcases), bmetas)
